@@ -60,7 +60,7 @@ Definition dot : ascii := "."%char.
 (* ------------------------------------------------------------------ regex items *)
 
 (* The regex class the generator emits, as a flat item list.
-   RLit s   : the text s copied verbatim into the pattern (NOT escaped by the generator)
+   RLit s   : the literal text s, printed into the pattern through re.escape
    RSlash   : a slash;  RSeg : one or more non-slash characters;  RAny : dot-star (greedy);
    ROptAny  : an optional non-capturing group of a slash followed by dot-star;
    ROpen k  : opening of the named group k;  RClose : its closing parenthesis.
@@ -68,9 +68,18 @@ Definition dot : ascii := "."%char.
 Inductive rx :=
 | RLit (s : string) | RSlash | RSeg | RAny | ROptAny | ROpen (k : string) | RClose.
 
+(* re.escape: a backslash before each character of re._special_chars_map, i.e. one of
+   parentheses, brackets, braces, ? * + - | ^ $ backslash . & ~ # space, or one of tab, newline, CR, VT, FF *)
+Definition re_special (c : ascii) : bool :=
+  contains c "()[]{}?*+-|^$\.&~# " || in_range 9 13 c.
+Definition re_escape_char (c : ascii) : string :=
+  if re_special c then String "\"%char (s1 c) else s1 c.
+Fixpoint re_escape (s : string) : string :=
+  match s with EmptyString => EmptyString | String c s' => re_escape_char c ++ re_escape s' end.
+
 Definition rx_print1 (r : rx) : string :=
   match r with
-  | RLit s => s
+  | RLit s => re_escape s
   | RSlash => "/"
   | RSeg => "[^/]+"
   | RAny => ".*"
@@ -81,8 +90,7 @@ Definition rx_print1 (r : rx) : string :=
 Definition rx_print (l : list rx) : string := sconcat (map rx_print1 l).
 
 Inductive err := EValue (* ValueError *) | EAssert (* AssertionError *) | EFuel | EIndex (* IndexError: no such group *)
-               | ETrunc (* re.Pattern.__repr__ cut the pattern: the emitted line is not Python *)
-               | EUndef (* jinja2 UndefinedError: 'None' has no attribute 'routing_parameters' *).
+               .
 Inductive res (A : Type) := Ok (a : A) | Err (e : err).
 Arguments Ok {A} a.
 Arguments Err {A} e.
@@ -145,7 +153,7 @@ Definition convert_segment (rec : string -> res (list rx)) (seg : string) : res 
   else Ok [RLit seg].
 
 (* _merge_segments on the per-segment regexes: x == ".*" holds exactly for the item list [RAny]
-   (a literal never contains a star, [^/]+ and a group print differently) *)
+   (a literal never contains a star and is escaped, [^/]+ and a group print differently) *)
 Definition is_any (y : list rx) : bool := match y with [RAny] => true | _ => false end.
 Definition merge_piece (y : list rx) : list rx := if is_any y then [ROptAny] else RSlash :: y.
 Definition merge_rx (l : list (list rx)) : list rx :=
@@ -180,9 +188,6 @@ Definition key_of (field : string) (r : list rx) : string :=
 
 (* ------------------------------------------------------------------ Python re.match on that class *)
 
-(* pattern characters that stand for themselves *)
-Definition rx_plain (c : ascii) : bool := negb (contains c ".^$*+?{}[]\|()").
-
 (* '$' without MULTILINE: at the end, or just before a final newline *)
 Definition at_end (s : string) : bool :=
   match s with EmptyString => true | String a EmptyString => Ascii.eqb a nl | _ => false end.
@@ -192,23 +197,9 @@ Inductive cst := CBefore | CIn (acc : string) | CAfter (cap : string).
 Definition push (st : cst) (x : string) : cst :=
   match st with CIn acc => CIn (acc ++ x) | _ => st end.
 
-(* verbatim pattern text: a plain character matches itself, '.' matches anything but newline;
-   any other metacharacter is outside the modelled class (see rx_supported) and matches nothing here *)
-Fixpoint lit_match (l s : string) : option (string * string) :=
-  match l with
-  | EmptyString => Some (EmptyString, s)
-  | String a l' =>
-      match s with
-      | EmptyString => None
-      | String b s' =>
-          if (Ascii.eqb a dot && negb (Ascii.eqb b nl)) || (rx_plain a && Ascii.eqb a b) then
-            match lit_match l' s' with
-            | Some (u, r) => Some (String b u, r)
-            | None => None
-            end
-          else None
-      end
-  end.
+(* escaped literal text matches exactly itself *)
+Definition lit_match (l s : string) : option (string * string) :=
+  match strip_prefix l s with Some r => Some (l, r) | None => None end.
 
 (* a greedy star over the characters satisfying [ok], with backtracking (longest first) *)
 Fixpoint greedy {R} (ok : ascii -> bool) (k : cst -> string -> option R) (st : cst) (s : string) : option R :=
@@ -259,9 +250,8 @@ Fixpoint rmatch (r : list rx) (st : cst) (s : string) {struct r} : option (optio
 (* re.compile("^" + r + "$").match(v) *)
 Definition rx_match (r : list rx) (v : string) : option (option string) := rmatch r CBefore v.
 
-(* the part of the class on which rmatch is claimed to be Python's semantics: verbatim text made of plain
-   characters and dots, at most one group, properly bracketed, with a Python identifier as its name *)
-Definition lit_supported (l : string) : bool := sall (fun c => rx_plain c || Ascii.eqb c dot) l.
+(* the part of the class on which rmatch is claimed to be Python's semantics: at most one group, properly
+   bracketed, with a Python identifier as its name (anything else is rejected by re.compile) *)
 Fixpoint brackets_ok (r : list rx) (st : nat) : bool :=   (* st: 0 before, 1 inside, 2 after *)
   match r with
   | [] => negb (Nat.eqb st 1)
@@ -275,7 +265,7 @@ Definition is_ident (k : string) : bool :=
   | String c _ => negb (is_digit c) && sall is_word k
   end.
 Definition item_supported (x : rx) : bool :=
-  match x with RLit l => lit_supported l | ROpen k => is_ident k | _ => true end.
+  match x with ROpen k => is_ident k | _ => true end.
 Definition rx_supported (r : list rx) : bool := forallb item_supported r && brackets_ok r 0.
 
 (* FieldHeader.disambiguated (also RoutingParameter.disambiguated_field): every component of the dotted
@@ -295,43 +285,18 @@ Inductive block :=
          (* routing_param_regex = re.compile('<pattern>'); regex_match = ....match(request.<attr>)
             if regex_match and regex_match.group("key"): header_params["key"] = regex_match.group("key") *)
 
-(* len(repr(s)) for the str s: quotes, backslashes doubled, the quote character escaped only when both
-   kinds occur (printable ASCII is what the generator can meet in a template) *)
-Definition py_repr_len (s : string) : nat :=
-  2 + String.length s + count_char "\"%char s
-  + (if contains "'"%char s && contains """"%char s then count_char "'"%char s else 0).
-
-(* the template prints  repr(re.compile(p)) : CPython formats the pattern with %.200R *)
-Definition repr_fits (pattern : string) : bool := Nat.leb (py_repr_len pattern) 200.
-
 (* RoutingParameter.sample_request (rendered into the unit-test template, so it runs on every generation):
-   uri_sample.sample_from_path_template takes the text between the first opening and the first closing brace
-   and calls .index("=") on it -- ValueError when there is none. *)
-Fixpoint cut_at (c : ascii) (s : string) : option (string * string) :=
-  match s with
-  | EmptyString => None
-  | String a s' => if Ascii.eqb a c then Some (EmptyString, s')
-                   else match cut_at c s' with Some (x, y) => Some (String a x, y) | None => None end
-  end.
-Definition sample_request_ok (t : string) : bool :=
-  match cut_at lbrace t with
-  | None => true
-  | Some (before, after) =>
-      if contains rbrace before then false
-      else match cut_at rbrace after with
-           | None => false
-           | Some (inner, _) => contains eqc inner
-           end
-  end.
+   uri_sample.sample_from_path_template looks up the first opening and the first closing brace with .index --
+   ValueError when there is an opening but no closing brace; the {key} shorthand stands for {key=*}. *)
+Definition sample_request_ok (t : string) : bool := negb (contains lbrace t) || contains rbrace t.
 
+(* the template prints RoutingParameter.regex_literal = "re.compile(%r)" % pattern : the pattern itself, whole *)
 Definition emit_param (p : param) : res block :=
   if is_empty (p_template p) then Ok (BPlain (disambiguated (p_field p)) (p_field p))
   else match convert_to_regex (p_template p) with
        | Err e => Err e
-       | Ok r => let pat := "^" ++ rx_print r ++ "$" in
-                 if negb (sample_request_ok (p_template p)) then Err EValue
-                 else if repr_fits pat then Ok (BRegex pat (disambiguated (p_field p)) (key_of (p_field p) r))
-                 else Err ETrunc
+       | Ok r => if negb (sample_request_ok (p_template p)) then Err EValue
+                 else Ok (BRegex ("^" ++ rx_print r ++ "$") (disambiguated (p_field p)) (key_of (p_field p) r))
        end.
 
 (* run-time value of one block on the field value v: the pair it writes into header_params, if any.
@@ -434,10 +399,8 @@ Inductive emitted :=
 Definition emit_metadata (m : method) : res emitted :=
   match m_explicit m with
   | Some ps => if m_client_streaming m then Ok (EExplicit [])
-               else match ps with
-                    | [] => Err EUndef       (* routing_rule is None for an annotation without parameters *)
-                    | _ => match map_res emit_param ps with Ok bs => Ok (EExplicit bs) | Err e => Err e end
-                    end
+               else match map_res emit_param ps with Ok bs => Ok (EExplicit bs) | Err e => Err e end
+                    (* an annotation without parameters: the loop runs over nothing, no header is ever sent *)
   | None => match field_headers (m_http m) with
             | [] => Ok ENothing
             | fh => Ok (EImplicit (if m_client_streaming m then [] else map (fun raw => (raw, disambiguated raw)) fh))
@@ -539,8 +502,8 @@ Definition aip_contribution (t : tmpl) (v : string) : option (string * string) :
   end.
 
 (* ---- the AIP class, as a boolean predicate ---- *)
-(* literal text: no slash, no star, no brace, no '=', no regex metacharacter *)
-Definition lit_char (c : ascii) : bool := rx_plain c && negb (Ascii.eqb c slash) && negb (Ascii.eqb c eqc).
+(* literal text: anything (regex metacharacters included) except slash, star, braces and '=' *)
+Definition lit_char (c : ascii) : bool := negb (contains c "/*{}=").
 Definition seg_ok (s : seg) : bool := match s with SLit l => sall lit_char l | _ => true end.
 Definition is_dstar (s : seg) : bool := match s with SDstar => true | _ => false end.
 Definition no_dstar (l : list seg) : bool := forallb (fun s => negb (is_dstar s)) l.
@@ -586,7 +549,7 @@ Definition contrib_eqb (a b : option (string * string)) : bool := option_eqb (pa
 (* ---- comparison helpers for the correspondence checks ---- *)
 Definition err_eqb (a b : err) : bool :=
   match a, b with
-  | EValue, EValue | EAssert, EAssert | EFuel, EFuel | EIndex, EIndex | ETrunc, ETrunc | EUndef, EUndef => true
+  | EValue, EValue | EAssert, EAssert | EFuel, EFuel | EIndex, EIndex => true
   | _, _ => false
   end.
 Definition res_eqb {A} (eqb : A -> A -> bool) (a b : res A) : bool :=
@@ -616,6 +579,13 @@ Definition req_of (l : list (string * string)) : request :=
 (* ---- the AIP class as a predicate on template STRINGS: an independent reader of the text ---- *)
 (* head { body } tail ; head empty or ending in a slash ; tail empty or starting with one ;
    body = key or key=sub ; segments are the slash-separated pieces: a star, two stars, or literal text *)
+(* text before the first occurrence of c, and the text after it *)
+Fixpoint cut_at (c : ascii) (s : string) : option (string * string) :=
+  match s with
+  | EmptyString => None
+  | String a s' => if Ascii.eqb a c then Some (EmptyString, s')
+                   else match cut_at c s' with Some (x, y) => Some (String a x, y) | None => None end
+  end.
 Definition seg_of_str (x : string) : seg :=
   if String.eqb x "*" then SStar else if String.eqb x "**" then SDstar else SLit x.
 Definition last_is (c : ascii) (s : string) : bool :=
